@@ -6,7 +6,7 @@ correspondence  TransformationQuery(...).sparql() of /repo, read back into a lis
                 renaming of variables); verdicts of rdflib on the generated query, of
                 rdflib and of an independent matcher on the query flattened to a plain
                 basic graph pattern (whole and per component), and of the proved
-                decision procedure Bgp.matchb on the model's conjuncts over the same graph
+                decision procedure Bgp.matchc on the model's conjuncts over the same graph
 oracle          `assignable`: the property's sentence evaluated by brute force on the
                 implementation's graph, independent of the generated patterns; plus
                 self-match, monotonicity, absence and vocabulary checks
@@ -28,6 +28,7 @@ NS = "https://example.com/c11#"
 SIG_MEMBERSHIP = "graph-emits-containsOperator-query-and-vocabulary-use-containsOperation"
 SIG_BAG = "type-prefilter-reduced-by-pinned-Bag.add(C20)"
 SIG_SUPER = "graph-misses-a-canonical-supertype(C07/C10)"
+MAX_NODES = 14
 
 
 # --------------------------------------------------------------------------
@@ -301,6 +302,9 @@ def build_workflow(L: Lang11, recipe: dict, idx: int):
     W.error = None
     W.graph = g
     index_graph(L, W)
+    if len(W.nodes) > MAX_NODES:
+        W.error = "TooLarge: more than %d concept nodes" % MAX_NODES
+        W.graph = None
     return W
 
 
@@ -394,7 +398,7 @@ def _step_info(rng, L: Lang11, W, n, mode=None):
     return types, ops
 
 
-def derive_task(rng: random.Random, L: Lang11, W, penultimate=True, dag=None):
+def derive_task(rng: random.Random, L: Lang11, W, penultimate=True, dag=None, max_steps=7):
     """Sub-sample a task from W's own graph: every step comes from a concept node, every
     from-edge of the task follows the node's dependencies."""
     dag = rng.random() < 0.35 if dag is None else dag
@@ -415,6 +419,8 @@ def derive_task(rng: random.Random, L: Lang11, W, penultimate=True, dag=None):
             k = rng.choice([0, 1, 1, 1, 2, 2, 3])
             direct = W.froms[n]
             for _ in range(k):
+                if len(steps) >= max_steps:
+                    break
                 m = rng.choice(direct) if (direct and rng.random() < 0.6) else rng.choice(W.deps[n])
                 c = mk(m, depth - 1, False)
                 if c not in steps[sid]["from"] and c != sid:
@@ -427,7 +433,7 @@ def derive_task(rng: random.Random, L: Lang11, W, penultimate=True, dag=None):
         start = rng.choice(W.froms[out])
     o = mk(start, rng.choice([0, 1, 2, 2, 3, 3]), False)
     T = {"steps": steps, "outs": [o], "origin": origin}
-    return T if acyclic(T) else derive_task(rng, L, W, penultimate, False)
+    return T if acyclic(T) else derive_task(rng, L, W, penultimate, False, max_steps)
 
 
 def acyclic(T) -> bool:
@@ -1173,15 +1179,14 @@ Definition flow_part (H : hier) (sw : switches) (sk : skel) : list pat :=
 Definition completeb (sk : skel) : bool :=
   forallb (fun v => memn v (chron_order sk)) (seq 0 (sk_n sk)).
 (* rows: [status; chronology visits every variable; #conjuncts; #graphs],
-   per graph [all; pre-filter; flow], the conjuncts, the type clauses of the pinned Bag *)
+   per graph [pre-filter; flow] (no variable is shared, so all = both), the conjuncts, the type clauses of the pinned Bag *)
 Definition obs (H : hier) (Gs : list graph) (sw : switches) (unfold : bool) (T : task)
     : list (list nat) :=
   match skeleton 64 T unfold with
   | Ok sk =>
       let q := gen H sw sk in
       [0; b2n (completeb sk); length q; length Gs]
-      :: map (fun G => [b2n (matchb G q); b2n (matchb G (pre_part H sw sk));
-                        b2n (matchb G (flow_part H sw sk))]) Gs
+      :: map (fun G => [b2n (matchc G (pre_part H sw sk)); b2n (matchc G (flow_part H sw sk))]) Gs
       ++ map epat q
       ++ map epat (gen_clauses (ty_bag_of_pinned H (sk_ty sk)))
   | Cycle => [[1]]
@@ -1443,6 +1448,28 @@ def split_flow(flow, gvar):
     return out, inp, rest
 
 
+class _Timeout(Exception):
+    pass
+
+
+def timed_query(ds, text: str, limit: int = 6):
+    """rdflib's evaluation strategy is exponential on some of these queries; a query that
+    takes too long is skipped for the rdflib verdicts (counted), never guessed."""
+    import signal
+
+    def handler(signum, frame):
+        raise _Timeout()
+    old = signal.signal(signal.SIGALRM, handler)
+    signal.alarm(limit)
+    try:
+        return list(ds.query(text))
+    except _Timeout:
+        return None
+    finally:
+        signal.alarm(0)
+        signal.signal(signal.SIGALRM, old)
+
+
 def observe_impl(L: Lang11, Ws, ds, case, with_rdflib_components: bool, alt_style: str | None):
     """Everything the implementation says about one case."""
     from transforge.graph import CyclicTransformationGraphError
@@ -1469,9 +1496,13 @@ def observe_impl(L: Lang11, Ws, ds, case, with_rdflib_components: bool, alt_styl
     ob["preds"] = {x for c in pre + flow for tp in ([c[1:]] if c[0] == "tp" else c[1]) for x in tp[1][1:]}
     roots = {W.root: i for i, W in enumerate(Ws)}
     # the query as deployed, on rdflib
-    got = {r.workflow for r in ds.query(text)}
-    ob["impl"] = [W.root in got for W in Ws]
-    ob["impl_extra"] = [str(x) for x in got if x not in roots]
+    rows = timed_query(ds, text)
+    if rows is None:
+        ob["impl"] = None
+    else:
+        got = {r.workflow for r in rows}
+        ob["impl"] = [W.root in got for W in Ws]
+        ob["impl_extra"] = [str(x) for x in got if x not in roots]
     # the same conjuncts as a plain basic graph pattern: own matcher, every component
     out, inp, rest = split_flow(flow, gvar)
     comps = {"all": pre + flow, "pre": pre, "flow": flow, "out": out, "in": inp, "rest": rest}
@@ -1481,8 +1512,10 @@ def observe_impl(L: Lang11, Ws, ds, case, with_rdflib_components: bool, alt_styl
     for k in (COMPONENTS if with_rdflib_components else ["all"]):
         if not comps[k]:
             continue
-        res = {r[0] for r in ds.query(sparql_of(comps[k], gvar))}
-        ob["flat"][k] = [W.root in res for W in Ws]
+        rows = timed_query(ds, sparql_of(comps[k], gvar)) if ob["impl"] is not None else None
+        if rows is not None:
+            res = {r[0] for r in rows}
+            ob["flat"][k] = [W.root in res for W in Ws]
     # another way of writing the same task
     if alt_style:
         try:
@@ -1491,8 +1524,8 @@ def observe_impl(L: Lang11, Ws, ds, case, with_rdflib_components: bool, alt_styl
             b2, tree2 = read_query(t2)
             pre2, flow2, gvar2 = flatten(tree2)
             ob["alt"] = {"style": alt_style, "conj": norm_conjuncts(L, pre2 + flow2, gvar2), "sparql": t2}
-            got2 = {r.workflow for r in ds.query(t2)}
-            ob["alt"]["impl"] = [W.root in got2 for W in Ws]
+            rows2 = timed_query(ds, t2) if ob["impl"] is not None else None
+            ob["alt"]["impl"] = None if rows2 is None else [W.root in {r.workflow for r in rows2} for W in Ws]
         except Exception as e:
             ob["alt"] = {"style": alt_style, "error": f"{type(e).__name__}: {e}"}
     return ob
@@ -1739,7 +1772,8 @@ def run(rep, world, stats, tier, rng) -> int:
                 if "error" in a:
                     rep.violation(f"alt_{li}_{ci}", dict(pay, kind="oracle", alt=a,
                         what="the same task written differently is rejected"))
-                elif not iso_conjuncts(a["conj"], ob["conj"]) or a["impl"] != ob["impl"]:
+                elif not iso_conjuncts(a["conj"], ob["conj"]) or (
+                        a["impl"] is not None and ob["impl"] is not None and a["impl"] != ob["impl"]):
                     rep.violation(f"alt_{li}_{ci}", dict(pay, kind="oracle", alt_style=a["style"],
                         alt_sparql=a["sparql"], what="the same task written differently gives a different query"))
             # -- verdicts per workflow
@@ -1749,15 +1783,18 @@ def run(rep, world, stats, tier, rng) -> int:
                 spec = assignable(L, W, T, sw)
                 spec_b = spec is not None
                 strict = assignable(L, W, T, sw, strict_types=True) is not None
-                impl = ob["impl"][wi]
-                mv = bool(mver[wi][0])
+                impl = ob["impl"][wi] if ob["impl"] is not None else None
+                if impl is None and wi == 0:
+                    stats["rdflib_timeout"] += 1
+                mpre, mflow = bool(mver[wi][0]), bool(mver[wi][1])
+                mv = mpre and mflow
                 verdicts[("match" if own["all"] else "nomatch") + ("/home" if wi == case["home"] else "/other")] += 1
                 if len(reachable(T)) >= 2 and (T["steps"][T["outs"][0]]["types"] or T["steps"][T["outs"][0]]["ops"]):
                     distinct.add((li, ci, wi))
                 p2 = dict(pay, workflow_index=wi, workflow=W.text, verdicts={
                     "rdflib_generated_query": impl, "plain_bgp_own_matcher": own,
                     "plain_bgp_rdflib": {k: v[wi] for k, v in ob["flat"].items()},
-                    "model_matchb": {"all": mv, "pre": bool(mver[wi][1]), "flow": bool(mver[wi][2])},
+                    "model_matchc": {"all": mv, "pre": mpre, "flow": mflow},
                     "assignable": spec_b, "assignment": spec, "assignable_by_is_subtype": strict},
                     graph_invariants_broken=inv[wi])
                 if len(samples) < 4 and spec_b and len(reachable(T)) >= 3 and wi == case["home"]:
@@ -1782,7 +1819,7 @@ def run(rep, world, stats, tier, rng) -> int:
                              "by is_subtype instead of the graph's subtypeOf triples"), signature=SIG_SUPER)
                 # the deployed query on rdflib: equal, except that rdflib returns a row for an
                 # empty GROUP BY sub-select and so never applies the pre-filter
-                if impl != own["all"]:
+                if impl is not None and impl != own["all"]:
                     if impl and not own["pre"] and own["flow"]:
                         stats["rdflib_ignores_failing_prefilter"] += 1
                     else:
@@ -1799,10 +1836,10 @@ def run(rep, world, stats, tier, rng) -> int:
                     rep.violation(f"join_{li}_{ci}_{wi}", dict(p2, kind="engine",
                         what="pre-filter and flow share only ?workflow, yet all != pre and flow"), has_input=False)
                 # model verdict (proved decision procedure on the model's conjuncts)
-                if same and (mv != own["all"] or bool(mver[wi][1]) != own["pre"] or bool(mver[wi][2]) != own["flow"]):
+                if same and (mv != own["all"] or mpre != own["pre"] or mflow != own["flow"]):
                     dis += 1
                     rep.violation(f"matchb_{li}_{ci}_{wi}", dict(p2, kind="correspondence",
-                        what="Bgp.matchb on the model's conjuncts and the matcher on the implementation's disagree"),
+                        what="Bgp.matchc on the model's conjuncts and the matcher on the implementation's disagree"),
                         has_input=False)
                 own_all[(ci, wi)] = own["all"]
                 # metamorphic checks
